@@ -9,5 +9,7 @@ ASSUME PrintT(<<"STATS", ToJson([ncases |-> NCases, applicable |-> Cardinality(A
                                  positions |-> NP, shapes |-> NS, rels |-> NR, shape_names |-> Shapes,
                                  ends_nl_shapes |-> EndsNLShapes, ml_string_shapes |-> MultiLineStringShapes,
                                  from_kinds |-> FromKinds, dup_kinds |-> DupKinds,
-                                 ml_kinds |-> MLKinds])>>)
+                                 ml_kinds |-> MLKinds, dd_kinds |-> DDKinds, di_kinds |-> DIKinds, decl_kinds |-> DeclKinds,
+                                 conflict_kinds |-> ConflictKinds, two_kinds |-> TwoKinds,
+                                 lt_decoy_shapes |-> LtDecoyShapes, mark_shapes |-> MarkShapes])>>)
 =============================================================================
